@@ -4,7 +4,7 @@ import random
 import sys
 from collections import deque
 
-ENV = {"Spawn", "Send", "StopReq"}
+ENV = {"Spawn", "SpawnAgain", "Send", "StopReq"}
 GATES = {"DoInit", "DoStarted", "DoDeliver", "DrainDeliver", "RecoverStopped", "ClStopped"}
 
 
@@ -85,6 +85,8 @@ def script_of(inst, states, acts):
                 steps[-1].update(expectation(inst, src))
             if name == "Spawn":
                 steps.append({"op": "spawn", "a": args[0]})
+            elif name == "SpawnAgain":
+                steps.append({"op": "spawn", "a": args[0], "again": True})
             elif name == "Send":
                 steps.append({"op": "send", "a": args[0], "id": src["nextMsg"]})
             elif name == "StopReq":
